@@ -166,6 +166,31 @@ def gen_c02(rng, tier):
         frames.append(w.f4(proto, icmp(8, 0, b'abcdefgh') + bytes(20)))
         frames.append(w.f6(proto, icmp6(128, 0, b'abcdefgh', w.cl6, w.my6) + bytes(20)))
     cases.append(case(w, frames, ['ethertype-sweep', 'protocol-sweep']))
+    # destination-address sweep: every kind of answerable request, addressed to group / broadcast / foreign /
+    # second-self addresses, on every accepted destination MAC class, with and without a self-IP list
+    for selfmode in (True, False):
+        w = World(rng, selfmode=selfmode, denymode=False)
+        frames = []
+        macs = [w.mac, BCAST, bytes.fromhex('333300000001'), bytes([0x33, 0x33, 0xff]) + w.my6[13:16],
+                bytes([1, 0, 0x5e, w.my4[1] & 0x7f, w.my4[2], w.my4[3]])]
+        d6 = [ip6('ff02::1'), ip6('ff02::2'), bytes.fromhex('ff0200000000000000000001ff') + w.my6[13:16],
+              bytes.fromhex('ff0200000000000000000001ff') + w.my6b[13:16], w.other6, w.my6b, w.my6, bytes(16)]
+        d4 = [ip4('224.0.0.1'), ip4('255.255.255.255'), w.my4[:3] + b'\xff', w.other4, w.my4b, w.my4, bytes(4)]
+        dns = struct.pack('>HHHHHH', 7, 0x0100, 1, 0, 0, 0) + b'\x01a\x00' + struct.pack('>HH', 1, 1)
+        for dm in macs:
+            for d in d6:
+                for tgt in (w.my6, w.my6b):
+                    ns = icmp6(135, 0, bytes(4) + tgt + b'\x01\x01' + w.cl_mac, w.cl6, d)
+                    frames.append(eth(dm, w.cl_mac, 0x86dd, ipv6(w.cl6, d, 58, ns, hlim=255)))
+                frames.append(eth(dm, w.cl_mac, 0x86dd, ipv6(w.cl6, d, 58, icmp6(128, 0, b'abcdefgh', w.cl6, d))))
+                frames.append(eth(dm, w.cl_mac, 0x86dd, ipv6(w.cl6, d, 6, lib.tcp(4000, 80, 1, 0, 2, src=w.cl6, dst=d))))
+                frames.append(eth(dm, w.cl_mac, 0x86dd, ipv6(w.cl6, d, 17, lib.udp(4000, 53, dns, src=w.cl6, dst=d))))
+            for d in d4:
+                frames.append(eth(dm, w.cl_mac, 0x0800, ipv4(w.cl4, d, 1, icmp(8, 0, b'abcdefgh'))))
+                frames.append(eth(dm, w.cl_mac, 0x0800, ipv4(w.cl4, d, 6, lib.tcp(4000, 80, 1, 0, 2, src=w.cl4, dst=d))))
+                frames.append(eth(dm, w.cl_mac, 0x0800, ipv4(w.cl4, d, 17, lib.udp(4000, 53, dns, src=w.cl4, dst=d))))
+                frames.append(eth(dm, w.cl_mac, 0x0806, arp(1, w.cl_mac, w.cl4, bytes(6), d)))
+        cases.append(case(w, frames, ['destination-sweep', 'self-list' if selfmode else 'no-self-list']))
     return cases
 
 
@@ -977,7 +1002,7 @@ def explore(prop, pd, tier, seed, replay=None):
     if disagreements and not violations and pd.get('judge'):
         found = focused_search(pd, rng, disagreements[:4])
         violations += found
-    if len(verdicts) != len(jmap):
+    if pd.get('judge') and len(verdicts) != len(jmap):
         disagreements.append({'what': 'judge produced %d verdicts for %d observations: %s' % (len(verdicts), len(jmap), err[:300])})
     if dead:
         violations.append({'clause': 'implementation driver died before finishing the op list', 'ops': []})
@@ -1386,6 +1411,35 @@ def explore_c08(prop, pd, tier, rng, corpus_cases):
     run_cases(cases)
     violations, disagreements, samples = [], [], []
     nontrivial = 0
+    # flood: more validated flows than any plausible table bound between the two halves of one request
+    # (implementation only: the model's table is an association list)
+    nflood = 70000 if tier == 'quick' else 140000
+    fcfg = default_cfg()
+    fkey = tuple(fcfg['key'])
+    my, cl = bytes([10, 0, 0, 1]), bytes.fromhex('020000000001')
+    vsrc, vsp = bytes([1, 2, 3, 4]), 40000
+    vck = cookie(fkey, vsrc, my, vsp, 80)
+    h1, h2 = b'GET / HT', b'TP/1.1\r\nHost: a\r\n\r\n'
+    seg = lambda src, sp, seq, ck, pl: eth(fcfg['mac'], cl, 0x0800, ipv4(src, my, 6, lib.tcp(sp, 80, seq, (ck + 1) & 0xffffffff, 0x18, pl)))
+    v1, v2 = seg(vsrc, vsp, 1000, vck, h1), seg(vsrc, vsp, 1000 + len(h1), vck, h2)
+    flood, clash = [], False
+    for i in range(nflood):
+        src, sp = bytes([11 + (i >> 16), (i >> 8) & 255, i & 255, 7]), 1024 + (i % 60000)
+        ck = cookie(fkey, src, my, sp, 80)
+        clash = clash or ck == vck
+        flood.append(seg(src, sp, 1, ck, b'xx'))
+    fl = [{'ops': [('C', fcfg), ('X',)] + [('F', x) for x in [v1] + flood + [v2]], 'tags': ['flood']},
+          {'ops': [('C', fcfg), ('X',)] + [('F', x) for x in [v1, v2]], 'tags': ['flood-own-only']}]
+    run_cases(fl, want_model=False)
+    fo = [proj_probe(c['impl'][-1]['r']) if c['impl'] else ('dead',) for c in fl]
+    if fo[0] != fo[1]:
+        violations.append({'clause': 'reply to the second half of a request differs after %d other validated flows (full history vs own flow only)' % nflood,
+                           'ops': [op_to_json(x) for x in fl[1]['ops']],
+                           'flood': {'flows': nflood, 'how': 'flow i: src (11+(i>>16)).((i>>8)&255).(i&255).7, sport 1024+(i%60000), dport 80, one PSH|ACK segment "xx" with ack = cookie+1, between the two frames'},
+                           'full_history_reply': str(fo[0])[:300], 'own_only_reply': str(fo[1])[:300], 'tags': ['flood'],
+                           'cookie_collision': clash})
+    elif fo[0][0] == 'reply':
+        nontrivial += 1
     for ids, f, cfgop in groups:
         outs = []
         for i in ids:
@@ -1398,7 +1452,7 @@ def explore_c08(prop, pd, tier, rng, corpus_cases):
             v = {'clause': 'reply to the probe frame differs between the full history and variant %d' % bad,
                  'ops': [op_to_json(x) for x in cases[ids[bad]]['ops']], 'full_history_ops': [op_to_json(x) for x in cases[ids[0]]['ops']],
                  'tags': ['noninterference']}
-            if collision_in([o[1] for o in cases[ids[0]]['ops'][2:]], cfgop[1]['key']):
+            if collision_with([o[1] for o in cases[ids[0]]['ops'][2:]], cfgop[1]['key'], f):
                 v['cookie_collision'] = True
             violations.append(v)
         elif len(samples) < 3 and outs[0][0] == 'reply':
@@ -1452,6 +1506,16 @@ def collision_in(frames, key):
             return True
         seen[ck] = k
     return False
+
+
+def collision_with(frames, key, probe):
+    """does another flow of the history share the probe flow's cookie? (K1)"""
+    pk = flow_key(probe)
+    if pk is None:
+        return False
+    ck = lambda k: cookie(key, k[1], k[2], struct.unpack('>H', k[3])[0], struct.unpack('>H', k[4])[0])
+    pc = ck(pk)
+    return any(k is not None and k != pk and ck(k) == pc for k in map(flow_key, frames))
 
 
 def reflect_class(r):
